@@ -1,16 +1,1312 @@
-//! C06 harness (stub).
+//! C06: signatures survive save/load unchanged and stay format-compatible.
+//!
+//! Request lines (all stateless; a `case` line only groups them):
+//!   save <siglist> <hexjson>   the JSON text the real writers produce for <siglist> must be <hexjson>
+//!                              (gen ran the real code; exec re-runs it) -> `same` | `differs <hex>`
+//!   roundtrip <siglist>        observation of from_reader(save(siglist)), container letter hidden
+//!   rtypes <siglist>           container letters after the round trip
+//!   gz <level> <siglist>       signatures_save_buffer(level) -> gunzip with the system gzip, compare to
+//!                              the plain bytes, load the compressed bytes back
+//!   load <hexjson>             Signature::from_reader on arbitrary text (Lean-written, legacy, malformed)
+//!   legacy <hexjson>           the same load, reduced to ksize/mins/abundances per sketch
+//!   file <relpath> <hexjson>   Signature::from_path on a bundled tests/test-data file (hexjson = its
+//!                              decompressed content, checked) -> as `load`
+//!   filefmt <relpath> <hexjson> as `legacy`
+//!   filter <k> <mol> <siglist> Signature::load_signatures / signatures_load_buffer on save(siglist)
+//!   loadvec|loadtree <hexjson> serde_json::from_slice::<KmerMinHash | KmerMinHashBTree>
+//! plus the non-protocol mode `dump` used by translator/c06.py.
+//!
+//! sigspec grammar (no whitespace):
+//!   siglist := '-' | sig ('+' sig)*
+//!   sig     := class ';' email ';' hash_function ';' filename ';' name ';' license ';' version ';' sketches
+//!              strings are hex(UTF-8) ('-' = empty), Option::None is '~', version = 16 hex digits (f64 bits)
+//!   sketches:= '-' | sketch ('|' sketch)*
+//!   sketch  := ('v'|'t'|'m') ':' num ':' ksize ':' seed ':' max_hash ':' mol ':' mins ':' abunds ':' md5
+//!            | 'h' ':' p ':' q ':' ksize ':' registers(hex)
+//!              mol = dna|protein|dayhoff|hp|x<hex> ; abunds = '~' | list ; md5 = ('c'|'n') hex(string)
+//!              (c = cached in the Mutex, n = cache empty and md5sum() reports this value)
+use sourmash::encodings::HashFunctions;
+use sourmash::ffi::signature::{signatures_load_buffer, signatures_save_buffer, SourmashSignature};
+use sourmash::ffi::utils::ForeignObject;
+use sourmash::prelude::*;
+use sourmash::signature::Signature;
+use sourmash::sketch::hyperloglog::HyperLogLog;
+use sourmash::sketch::minhash::{KmerMinHash, KmerMinHashBTree};
+use sourmash::sketch::Sketch;
+use std::collections::{BTreeMap, BTreeSet};
+use std::io::Write;
+use std::sync::Mutex;
 use verif_harness::*;
 
-fn gen(_a: &Args) {
-    let mut o = Out::new();
-    o.case("stub");
+const DATA: &str = "/repo/tests/test-data";
+
+// ------------------------------------------------------------------------------------------ spec types
+
+#[derive(Clone, Debug, PartialEq)]
+enum Mol {
+    Dna,
+    Protein,
+    Dayhoff,
+    Hp,
+    Custom(String),
+}
+
+#[derive(Clone, Debug)]
+struct Mh {
+    kind: char, // 'v' vector, 't' tree, 'm' hidden
+    num: u32,
+    ksize: u32,
+    seed: u64,
+    max_hash: u64,
+    mol: Mol,
+    mins: Vec<u64>,
+    abunds: Option<Vec<u64>>,
+    md5: String,
+    cached: bool,
+}
+
+#[derive(Clone, Debug)]
+enum Sk {
+    Mh(Mh),
+    Hll { p: u64, q: u64, ksize: u64, regs: Vec<u8> },
+}
+
+#[derive(Clone, Debug)]
+struct Sg {
+    class: String,
+    email: String,
+    hash_function: String,
+    filename: Option<String>,
+    name: Option<String>,
+    license: String,
+    version: u64,
+    sketches: Vec<Sk>,
+}
+
+fn hs(s: &str) -> String {
+    hex(s.as_bytes())
+}
+fn uhs(s: &str) -> String {
+    String::from_utf8(unhex(s)).unwrap()
+}
+fn hopt(s: &Option<String>) -> String {
+    match s {
+        None => "~".into(),
+        Some(x) => hs(x),
+    }
+}
+fn uhopt(s: &str) -> Option<String> {
+    if s == "~" {
+        None
+    } else {
+        Some(uhs(s))
+    }
+}
+
+fn fmt_mol(m: &Mol) -> String {
+    match m {
+        Mol::Dna => "dna".into(),
+        Mol::Protein => "protein".into(),
+        Mol::Dayhoff => "dayhoff".into(),
+        Mol::Hp => "hp".into(),
+        Mol::Custom(s) => format!("x{}", hs(s)),
+    }
+}
+fn parse_mol(s: &str) -> Mol {
+    match s {
+        "dna" => Mol::Dna,
+        "protein" => Mol::Protein,
+        "dayhoff" => Mol::Dayhoff,
+        "hp" => Mol::Hp,
+        _ => Mol::Custom(uhs(&s[1..])),
+    }
+}
+fn mol_hf(m: &Mol) -> HashFunctions {
+    match m {
+        Mol::Dna => HashFunctions::Murmur64Dna,
+        Mol::Protein => HashFunctions::Murmur64Protein,
+        Mol::Dayhoff => HashFunctions::Murmur64Dayhoff,
+        Mol::Hp => HashFunctions::Murmur64Hp,
+        Mol::Custom(s) => HashFunctions::Custom(s.clone()),
+    }
+}
+fn hf_mol(h: &HashFunctions) -> Mol {
+    match h {
+        HashFunctions::Murmur64Dna => Mol::Dna,
+        HashFunctions::Murmur64Protein => Mol::Protein,
+        HashFunctions::Murmur64Dayhoff => Mol::Dayhoff,
+        HashFunctions::Murmur64Hp => Mol::Hp,
+        HashFunctions::Custom(s) => Mol::Custom(s.clone()),
+        _ => Mol::Custom("?".into()),
+    }
+}
+
+fn fmt_sk(s: &Sk) -> String {
+    match s {
+        Sk::Mh(m) => format!(
+            "{}:{}:{}:{}:{}:{}:{}:{}:{}{}",
+            m.kind,
+            m.num,
+            m.ksize,
+            m.seed,
+            m.max_hash,
+            fmt_mol(&m.mol),
+            show_nats(m.mins.iter().copied()),
+            match &m.abunds {
+                None => "~".to_string(),
+                Some(a) => show_nats(a.iter().copied()),
+            },
+            if m.cached { 'c' } else { 'n' },
+            hs(&m.md5)
+        ),
+        Sk::Hll { p, q, ksize, regs } => format!("h:{}:{}:{}:{}", p, q, ksize, hex(regs)),
+    }
+}
+fn parse_sk(s: &str) -> Sk {
+    let f: Vec<&str> = s.split(':').collect();
+    if f[0] == "h" {
+        return Sk::Hll {
+            p: f[1].parse().unwrap(),
+            q: f[2].parse().unwrap(),
+            ksize: f[3].parse().unwrap(),
+            regs: unhex(f[4]),
+        };
+    }
+    Sk::Mh(Mh {
+        kind: f[0].chars().next().unwrap(),
+        num: f[1].parse().unwrap(),
+        ksize: f[2].parse().unwrap(),
+        seed: f[3].parse().unwrap(),
+        max_hash: f[4].parse().unwrap(),
+        mol: parse_mol(f[5]),
+        mins: parse_nats(f[6]),
+        abunds: if f[7] == "~" { None } else { Some(parse_nats(f[7])) },
+        cached: f[8].starts_with('c'),
+        md5: uhs(&f[8][1..]),
+    })
+}
+fn fmt_sig(s: &Sg) -> String {
+    let sk: Vec<String> = s.sketches.iter().map(fmt_sk).collect();
+    format!(
+        "{};{};{};{};{};{};{:016x};{}",
+        hs(&s.class),
+        hs(&s.email),
+        hs(&s.hash_function),
+        hopt(&s.filename),
+        hopt(&s.name),
+        hs(&s.license),
+        s.version,
+        if sk.is_empty() { "-".to_string() } else { sk.join("|") }
+    )
+}
+fn parse_sig(s: &str) -> Sg {
+    let f: Vec<&str> = s.split(';').collect();
+    Sg {
+        class: uhs(f[0]),
+        email: uhs(f[1]),
+        hash_function: uhs(f[2]),
+        filename: uhopt(f[3]),
+        name: uhopt(f[4]),
+        license: uhs(f[5]),
+        version: u64::from_str_radix(f[6], 16).unwrap(),
+        sketches: if f[7] == "-" { vec![] } else { f[7].split('|').map(parse_sk).collect() },
+    }
+}
+fn fmt_list(l: &[Sg]) -> String {
+    if l.is_empty() {
+        "-".into()
+    } else {
+        l.iter().map(fmt_sig).collect::<Vec<_>>().join("+")
+    }
+}
+fn parse_list(s: &str) -> Vec<Sg> {
+    if s == "-" {
+        vec![]
+    } else {
+        s.split('+').map(parse_sig).collect()
+    }
+}
+fn hide(mut l: Vec<Sg>) -> Vec<Sg> {
+    for s in l.iter_mut() {
+        for k in s.sketches.iter_mut() {
+            if let Sk::Mh(m) = k {
+                m.kind = 'm';
+                m.cached = true;
+            }
+        }
+    }
+    l
+}
+
+// ------------------------------------------------------------------------------------------ build / observe
+
+fn build_sk(s: &Sk) -> Sketch {
+    match s {
+        Sk::Mh(m) if m.kind != 't' => Sketch::MinHash(
+            KmerMinHash::builder()
+                .num(m.num)
+                .ksize(m.ksize)
+                .hash_function(mol_hf(&m.mol))
+                .seed(m.seed)
+                .max_hash(m.max_hash)
+                .mins(m.mins.clone())
+                .abunds(m.abunds.clone())
+                .md5sum(Mutex::new(if m.cached { Some(m.md5.clone()) } else { None }))
+                .build(),
+        ),
+        Sk::Mh(m) => {
+            let mins: BTreeSet<u64> = m.mins.iter().copied().collect();
+            let abunds: Option<BTreeMap<u64, u64>> =
+                m.abunds.as_ref().map(|a| m.mins.iter().copied().zip(a.iter().copied()).collect());
+            Sketch::LargeMinHash(
+                KmerMinHashBTree::builder()
+                    .num(m.num)
+                    .ksize(m.ksize)
+                    .hash_function(mol_hf(&m.mol))
+                    .seed(m.seed)
+                    .max_hash(m.max_hash)
+                    .current_max(mins.iter().next_back().copied().unwrap_or(0))
+                    .mins(mins)
+                    .abunds(abunds)
+                    .md5sum(Mutex::new(if m.cached { Some(m.md5.clone()) } else { None }))
+                    .build(),
+            )
+        }
+        Sk::Hll { p, q, ksize, regs } => {
+            // through the binary codec (independent of serde): "HLL" 1 p q ksize registers
+            let mut b = vec![b'H', b'L', b'L', 1, *p as u8, *q as u8, *ksize as u8];
+            b.extend_from_slice(regs);
+            Sketch::HyperLogLog(HyperLogLog::from_reader(&b[..]).unwrap())
+        }
+    }
+}
+
+fn build(s: &Sg) -> Signature {
+    Signature::builder()
+        .class(s.class.clone())
+        .email(s.email.clone())
+        .hash_function(s.hash_function.clone())
+        .filename(s.filename.clone())
+        .name(s.name.clone())
+        .license(s.license.clone())
+        .signatures(s.sketches.iter().map(build_sk).collect())
+        .version(f64::from_bits(s.version))
+        .build()
+}
+
+/// one Rust-`Debug` string literal starting at `s[0] == '"'`: (unescaped, rest after the closing quote)
+fn debug_str(s: &str) -> (String, &str) {
+    let mut out = String::new();
+    let mut it = s.char_indices();
+    assert_eq!(it.next().map(|x| x.1), Some('"'));
+    while let Some((i, c)) = it.next() {
+        match c {
+            '"' => return (out, &s[i + 1..]),
+            '\\' => {
+                let (_, e) = it.next().unwrap();
+                match e {
+                    'n' => out.push('\n'),
+                    'r' => out.push('\r'),
+                    't' => out.push('\t'),
+                    '0' => out.push('\0'),
+                    'u' => {
+                        let mut v = 0u32;
+                        it.next(); // {
+                        for (_, h) in it.by_ref() {
+                            if h == '}' {
+                                break;
+                            }
+                            v = v * 16 + h.to_digit(16).unwrap();
+                        }
+                        out.push(char::from_u32(v).unwrap());
+                    }
+                    x => out.push(x),
+                }
+            }
+            x => out.push(x),
+        }
+    }
+    panic!("unterminated debug string")
+}
+fn debug_opt(s: &str) -> (Option<String>, &str) {
+    if let Some(r) = s.strip_prefix("None") {
+        (None, r)
+    } else {
+        let r = s.strip_prefix("Some(").unwrap();
+        let (v, r) = debug_str(r);
+        (Some(v), r.strip_prefix(')').unwrap())
+    }
+}
+
+fn observe_sk(s: &Sketch) -> Sk {
+    match s {
+        Sketch::MinHash(m) => Sk::Mh(Mh {
+            kind: 'v',
+            num: m.num(),
+            ksize: m.ksize() as u32,
+            seed: m.seed(),
+            max_hash: m.max_hash(),
+            mol: hf_mol(&m.hash_function()),
+            mins: m.mins(),
+            abunds: m.abunds(),
+            md5: m.md5sum(),
+            cached: true,
+        }),
+        Sketch::LargeMinHash(m) => Sk::Mh(Mh {
+            kind: 't',
+            num: m.num(),
+            ksize: m.ksize() as u32,
+            seed: m.seed(),
+            max_hash: m.max_hash(),
+            mol: hf_mol(&m.hash_function()),
+            mins: m.mins(),
+            abunds: m.abunds(),
+            md5: m.md5sum(),
+            cached: true,
+        }),
+        Sketch::HyperLogLog(h) => {
+            let mut b = vec![];
+            h.save_to_writer(&mut b).unwrap();
+            Sk::Hll { p: b[4] as u64, q: b[5] as u64, ksize: b[6] as u64, regs: b[7..].to_vec() }
+        }
+    }
+}
+
+/// API-level observation: accessors, `Debug` (no serde involved) for the two `Option`s and the version
+fn observe(sig: &Signature) -> Sg {
+    let d = format!("{:?}", sig);
+    let r = d.strip_prefix("Signature { class: ").unwrap();
+    let (class, r) = debug_str(r);
+    let (email, r) = debug_str(r.strip_prefix(", email: ").unwrap());
+    let (hfn, r) = debug_str(r.strip_prefix(", hash_function: ").unwrap());
+    let (filename, r) = debug_opt(r.strip_prefix(", filename: ").unwrap());
+    let (name, r) = debug_opt(r.strip_prefix(", name: ").unwrap());
+    let (license, _) = debug_str(r.strip_prefix(", license: ").unwrap());
+    let vpos = d.rfind(", version: ").unwrap();
+    let version: f64 = d[vpos + 11..].strip_suffix(" }").unwrap().parse().unwrap();
+    // cross-check against the accessors
+    assert_eq!(class, sig.class());
+    assert_eq!(email, sig.email());
+    assert_eq!(hfn, sig.hash_function());
+    assert_eq!(license, sig.license());
+    assert_eq!(filename.clone().unwrap_or_default(), sig.filename());
+    if let Some(n) = &name {
+        assert_eq!(*n, sig.name());
+    } else {
+        let mut probe = sig.clone();
+        probe.set_filename("\u{1}probe");
+        assert_eq!(probe.name(), "\u{1}probe");
+    }
+    Sg {
+        class,
+        email,
+        hash_function: hfn,
+        filename,
+        name,
+        license,
+        version: version.to_bits(),
+        sketches: sig.iter().map(observe_sk).collect(),
+    }
+}
+fn observe_all(l: &[Signature]) -> Vec<Sg> {
+    l.iter().map(observe).collect()
+}
+
+/// after an op: every `n` (uncached) sketch must report exactly the md5 the request line says
+fn state_ok(specs: &[Sg], sigs: &[Signature]) -> bool {
+    for (s, g) in specs.iter().zip(sigs) {
+        for (k, r) in s.sketches.iter().zip(g.iter()) {
+            if let Sk::Mh(m) = k {
+                let got = match r {
+                    Sketch::MinHash(x) => x.md5sum(),
+                    Sketch::LargeMinHash(x) => x.md5sum(),
+                    _ => return false,
+                };
+                if got != m.md5 {
+                    return false;
+                }
+            }
+        }
+    }
+    true
+}
+
+// ------------------------------------------------------------------------------------------ real writers / readers
+
+fn err_name(e: &sourmash::Error) -> String {
+    let d = format!("{:?}", e);
+    let n: String = d.chars().take_while(|c| c.is_alphanumeric()).collect();
+    format!("err {}", n)
+}
+
+/// `signatures_save_buffer` (the exported function itself)
+fn ffi_save(sigs: &[Signature], level: u8) -> Option<Vec<u8>> {
+    unsafe {
+        let ptrs: Vec<*const SourmashSignature> = sigs.iter().map(|s| SourmashSignature::from_ref(s)).collect();
+        let mut n: usize = 0;
+        let p = signatures_save_buffer(ptrs.as_ptr(), ptrs.len(), level, &mut n);
+        if p.is_null() {
+            return None;
+        }
+        let b: Box<[u8]> = Box::from_raw(std::slice::from_raw_parts_mut(p as *mut u8, n));
+        Some(b.into_vec())
+    }
+}
+
+/// `signatures_load_buffer` (the exported function itself)
+fn ffi_load(buf: &[u8], k: usize, mol: Option<&str>) -> Option<Vec<Signature>> {
+    unsafe {
+        let c = mol.map(|m| std::ffi::CString::new(m).unwrap());
+        let mut n: usize = 0;
+        let p = signatures_load_buffer(
+            buf.as_ptr() as *const std::os::raw::c_char,
+            buf.len(),
+            false,
+            k,
+            c.as_ref().map(|x| x.as_ptr()).unwrap_or(std::ptr::null()),
+            &mut n,
+        );
+        if p.is_null() {
+            return None;
+        }
+        let b: Box<[*mut SourmashSignature]> = Box::from_raw(std::slice::from_raw_parts_mut(p, n));
+        Some(b.iter().map(|x| *SourmashSignature::into_rust(*x)).collect())
+    }
+}
+
+/// the plain JSON text of a list: `Signature::to_writer` for one signature (and it must agree with the
+/// exported list writer), the exported list writer otherwise
+fn save_plain(sigs: &[Signature]) -> Result<Vec<u8>, String> {
+    let viaffi = ffi_save(sigs, 0).ok_or("ffi-save-failed")?;
+    if sigs.len() == 1 {
+        let mut b = vec![];
+        sigs[0].to_writer(&mut b).map_err(|e| err_name(&e))?;
+        if b != viaffi {
+            return Err("writers-disagree".into());
+        }
+    }
+    Ok(viaffi)
+}
+
+fn gunzip(b: &[u8]) -> Option<Vec<u8>> {
+    use std::process::{Command, Stdio};
+    let mut ch = Command::new("gzip")
+        .arg("-dc")
+        .stdin(Stdio::piped())
+        .stdout(Stdio::piped())
+        .stderr(Stdio::null())
+        .spawn()
+        .ok()?;
+    let mut si = ch.stdin.take()?;
+    let data = b.to_vec();
+    let t = std::thread::spawn(move || {
+        let _ = si.write_all(&data);
+    });
+    let out = ch.wait_with_output().ok()?;
+    let _ = t.join();
+    if out.status.success() {
+        Some(out.stdout)
+    } else {
+        None
+    }
+}
+
+fn show_load(r: Result<Vec<Signature>, sourmash::Error>) -> String {
+    match r {
+        Ok(l) => fmt_list(&observe_all(&l)),
+        Err(e) => err_name(&e),
+    }
+}
+
+/// per signature `k:mins:abunds` of every sketch
+fn show_fmt(r: Result<Vec<Signature>, sourmash::Error>) -> String {
+    match r {
+        Ok(l) => {
+            let v: Vec<String> = observe_all(&l)
+                .iter()
+                .map(|s| {
+                    let k: Vec<String> = s
+                        .sketches
+                        .iter()
+                        .map(|k| match k {
+                            Sk::Mh(m) => format!(
+                                "{}:{}:{}",
+                                m.ksize,
+                                show_nats(m.mins.iter().copied()),
+                                match &m.abunds {
+                                    None => "~".into(),
+                                    Some(a) => show_nats(a.iter().copied()),
+                                }
+                            ),
+                            Sk::Hll { .. } => "h".into(),
+                        })
+                        .collect();
+                    if k.is_empty() { "-".to_string() } else { k.join("|") }
+                })
+                .collect();
+            if v.is_empty() { "-".into() } else { v.join("+") }
+        }
+        Err(e) => err_name(&e),
+    }
+}
+
+fn read_data(rel: &str) -> (Vec<u8>, Vec<u8>) {
+    let raw = std::fs::read(format!("{}/{}", DATA, rel)).unwrap();
+    let plain = if raw.starts_with(&[0x1f, 0x8b]) { gunzip(&raw).unwrap() } else { raw.clone() };
+    (raw, plain)
 }
 
 fn step(_: &mut (), ws: &[&str]) -> String {
     match ws[0] {
         "case" => "ok".into(),
+        "save" => {
+            let specs = parse_list(ws[1]);
+            let sigs: Vec<Signature> = specs.iter().map(build).collect();
+            match save_plain(&sigs) {
+                Ok(b) => {
+                    if !state_ok(&specs, &sigs) {
+                        "bad-state".into()
+                    } else if hex(&b) == ws[2] {
+                        "same".into()
+                    } else {
+                        format!("differs {}", hex(&b))
+                    }
+                }
+                Err(e) => e,
+            }
+        }
+        "roundtrip" | "rtypes" => {
+            let specs = parse_list(ws[1]);
+            let sigs: Vec<Signature> = specs.iter().map(build).collect();
+            let b = match save_plain(&sigs) {
+                Ok(b) => b,
+                Err(e) => return e,
+            };
+            if !state_ok(&specs, &sigs) {
+                return "bad-state".into();
+            }
+            match Signature::from_reader(&b[..]) {
+                Ok(l) => {
+                    let o = observe_all(&l);
+                    if ws[0] == "rtypes" {
+                        let t: String = o
+                            .iter()
+                            .map(|s| {
+                                s.sketches
+                                    .iter()
+                                    .map(|k| match k {
+                                        Sk::Mh(m) => m.kind,
+                                        _ => 'h',
+                                    })
+                                    .collect::<String>()
+                            })
+                            .collect::<Vec<_>>()
+                            .join("+");
+                        if t.is_empty() { "-".into() } else { t }
+                    } else {
+                        fmt_list(&hide(o))
+                    }
+                }
+                Err(e) => err_name(&e),
+            }
+        }
+        "gz" => {
+            let level: u8 = ws[1].parse().unwrap();
+            let specs = parse_list(ws[2]);
+            let sigs: Vec<Signature> = specs.iter().map(build).collect();
+            let plain = match save_plain(&sigs) {
+                Ok(b) => b,
+                Err(e) => return e,
+            };
+            let z = match ffi_save(&sigs, level) {
+                Some(z) => z,
+                None => return "ffi-save-failed".into(),
+            };
+            let isgz = z.starts_with(&[0x1f, 0x8b]);
+            let un = if isgz { gunzip(&z) } else { Some(z.clone()) };
+            let eq = un.as_deref() == Some(&plain[..]);
+            let back = match Signature::from_reader(&z[..]) {
+                Ok(l) => fmt_list(&hide(observe_all(&l))),
+                Err(e) => err_name(&e),
+            };
+            format!("{} {} {}", if isgz { "gz" } else { "plain" }, if eq { "eq" } else { "ne" }, back)
+        }
+        "load" => show_load(Signature::from_reader(&unhex(ws[1])[..])),
+        "legacy" => show_fmt(Signature::from_reader(&unhex(ws[1])[..])),
+        "file" | "filefmt" => {
+            let (_, plain) = read_data(ws[1]);
+            if hex(&plain) != ws[2] {
+                return "file-changed".into();
+            }
+            let r = Signature::from_path(format!("{}/{}", DATA, ws[1]));
+            if ws[0] == "file" { show_load(r) } else { show_fmt(r) }
+        }
+        "filter" => {
+            let k: usize = ws[1].parse().unwrap();
+            let mol = if ws[2] == "any" { None } else { Some(ws[2]) };
+            let specs = parse_list(ws[3]);
+            let sigs: Vec<Signature> = specs.iter().map(build).collect();
+            let b = match save_plain(&sigs) {
+                Ok(b) => b,
+                Err(e) => return e,
+            };
+            let hf = mol.map(|m| HashFunctions::try_from(m).unwrap());
+            let r = Signature::load_signatures(&b[..], if k == 0 { None } else { Some(k) }, hf, None);
+            let direct = match r {
+                Ok(l) => fmt_list(&hide(observe_all(&l))),
+                Err(e) => return err_name(&e),
+            };
+            let via = match ffi_load(&b, k, mol) {
+                Some(l) => fmt_list(&hide(observe_all(&l))),
+                None => "ffi-load-failed".into(),
+            };
+            if via == direct { direct } else { format!("ffi-differs {} {}", direct, via) }
+        }
+        "loadvec" => match serde_json::from_slice::<KmerMinHash>(&unhex(ws[1])) {
+            Ok(m) => fmt_sk(&observe_sk(&Sketch::MinHash(m))),
+            Err(_) => "err SerdeError".into(),
+        },
+        "loadtree" => match serde_json::from_slice::<KmerMinHashBTree>(&unhex(ws[1])) {
+            Ok(m) => fmt_sk(&observe_sk(&Sketch::LargeMinHash(m))),
+            Err(_) => "err SerdeError".into(),
+        },
         _ => "bad-op".into(),
     }
+}
+
+// ------------------------------------------------------------------------------------------ generators
+
+const STRS: &[&str] = &[
+    "",
+    "a",
+    "genome-s10.fa.gz",
+    "NC_009665.1 Shewanella baltica OS185, complete genome",
+    "with \"double\" and 'single' quotes",
+    "back\\slash \\n not a newline",
+    "line1\nline2\r\n\ttabbed",
+    "ctrl \u{1}\u{8}\u{c}\u{1f}\u{7f} chars",
+    "caf\u{e9} na\u{ef}ve \u{fc}ber",
+    "\u{4e2d}\u{6587}\u{540d}\u{79f0}",
+    "emoji \u{1f9ec}\u{1f600} astral \u{10ffff}",
+    "sep \u{2028}\u{2029} bom \u{feff} edge \u{d7ff}\u{e000}\u{ffff}",
+    "rtl \u{5d0}\u{5d1} combining e\u{301}\u{308}",
+    "{\"json\":[1,2,{\"x\":null}]}",
+    "/",
+    "</script>",
+    "~",
+    "-",
+    ";|+:,",
+];
+
+fn rstr(r: &mut Rng) -> String {
+    match r.below(8) {
+        0..=4 => r.pick(STRS).to_string(),
+        5 => {
+            // random scalar values (NUL-free), any plane
+            let n = r.range(1, 12);
+            (0..n)
+                .map(|_| loop {
+                    let b = r.range(1, 21) as u32;
+                    let v = (r.next() as u32) & ((1u32 << b) - 1);
+                    if v == 0 {
+                        continue;
+                    }
+                    if let Some(c) = char::from_u32(v) {
+                        break c;
+                    }
+                })
+                .collect()
+        }
+        6 => format!("{}{}", r.pick(STRS), r.pick(STRS)),
+        _ => {
+            let n = r.range(1, 40);
+            (0..n).map(|_| (r.range(0x20, 0x7e) as u8) as char).collect()
+        }
+    }
+}
+
+fn rhash(r: &mut Rng, ceil: u64) -> u64 {
+    let v = match r.below(10) {
+        0 => u64::MAX,
+        1 => 0,
+        2 => (1u64 << r.range(0, 63)).wrapping_sub(r.below(2)),
+        3 => u64::MAX - r.below(3),
+        4 => (1u64 << 53) + r.below(3),
+        _ => r.bits(64),
+    };
+    if ceil != 0 && r.chance(7, 8) { v % ceil.max(1) } else { v }
+}
+
+const VERSIONS: &[f64] = &[0.4, 0.4, 0.4, 0.4, 0.5, 1.0, 2.0, 0.25, 0.1, 1.5, 3.25, 100.0, 0.001];
+
+fn real_md5(m: &Mh) -> String {
+    let mut x = m.clone();
+    x.cached = false;
+    match build_sk(&Sk::Mh(x)) {
+        Sketch::MinHash(s) => s.md5sum(),
+        Sketch::LargeMinHash(s) => s.md5sum(),
+        _ => unreachable!(),
+    }
+}
+
+fn rmh(r: &mut Rng, kind: char) -> Mh {
+    let ksize = match r.below(8) {
+        0 => *r.pick(&[0u32, 1, 2, u32::MAX, u32::MAX - 1, 1 << 31]),
+        1 => r.bits(32) as u32,
+        _ => *r.pick(&[21u32, 31, 51, 7, 10, 30, 57, 63]),
+    };
+    let seed = match r.below(6) {
+        0 => *r.pick(&[0u64, 1, u64::MAX, 1 << 63]),
+        1 => r.bits(64),
+        _ => 42,
+    };
+    // a sketch is a num sketch or a scaled sketch (or the never-filled 0/0)
+    let (num, max_hash) = match r.below(10) {
+        0 => (0u32, 0u64),
+        1..=4 => (*r.pick(&[1u32, 5, 500, 1000, u32::MAX, 1 << 31]), 0u64),
+        5 => (0, u64::MAX),
+        6 => (0, r.bits(64).max(1)),
+        _ => (0, u64::MAX / *r.pick(&[1000u64, 10000, 100, 1, 2, 3, 93])),
+    };
+    let n = match r.below(6) {
+        0 => 0,
+        1 => 1,
+        5 => r.range(20, 60),
+        _ => r.range(2, 12),
+    };
+    let mut set = BTreeSet::new();
+    for _ in 0..n {
+        set.insert(rhash(r, max_hash));
+    }
+    let mins: Vec<u64> = set.into_iter().collect();
+    let abunds = if r.chance(1, 2) {
+        Some(
+            mins.iter()
+                .map(|_| match r.below(6) {
+                    0 => u64::MAX,
+                    1 => 1,
+                    2 => r.bits(64).max(1),
+                    _ => r.range(1, 300),
+                })
+                .collect(),
+        )
+    } else {
+        None
+    };
+    let mol = r.pick(&[Mol::Dna, Mol::Dna, Mol::Protein, Mol::Dayhoff, Mol::Hp]).clone();
+    let mut m = Mh { kind, num, ksize, seed, max_hash, mol, mins, abunds, md5: String::new(), cached: false };
+    match r.below(10) {
+        0 => {
+            // whatever a loaded file carried: stored as given
+            m.cached = true;
+            m.md5 = if r.chance(1, 2) { rstr(r) } else { format!("{:032x}", r.next() as u128 * r.next() as u128) };
+        }
+        1..=4 => {
+            m.md5 = real_md5(&m);
+            m.cached = true;
+        }
+        _ => m.md5 = real_md5(&m),
+    }
+    m
+}
+
+fn rhll(r: &mut Rng) -> Sk {
+    let p = r.range(4, 6);
+    let regs: Vec<u8> = (0..(1u64 << p)).map(|_| if r.chance(1, 3) { r.range(0, 64 - p + 1) as u8 } else { 0 }).collect();
+    // q and ksize are bytes in the binary codec used to build the state; serde carries usize
+    Sk::Hll { p, q: if r.chance(3, 4) { 64 - p } else { r.range(0, 255) }, ksize: *r.pick(&[21u64, 31, 0, 255, 7]), regs }
+}
+
+fn rsig(r: &mut Rng, hll: bool) -> Sg {
+    let nsk = match r.below(8) {
+        0 => 0,
+        1..=4 => 1,
+        _ => r.range(2, 5),
+    };
+    let sketches = (0..nsk)
+        .map(|_| {
+            if hll && r.chance(1, 8) {
+                rhll(r)
+            } else {
+                let kind = if r.chance(1, 2) { 'v' } else { 't' };
+                Sk::Mh(rmh(r, kind))
+            }
+        })
+        .collect();
+    let dflt = |r: &mut Rng, d: &str| if r.chance(4, 5) { d.to_string() } else { rstr(r) };
+    Sg {
+        class: dflt(r, "sourmash_signature"),
+        email: dflt(r, ""),
+        hash_function: dflt(r, "0.murmur64"),
+        filename: if r.chance(1, 2) { Some(rstr(r)) } else { None },
+        name: if r.chance(1, 2) { Some(rstr(r)) } else { None },
+        license: dflt(r, "CC0"),
+        version: r.pick(VERSIONS).to_bits(),
+        sketches,
+    }
+}
+
+fn real_json(l: &[Sg]) -> Vec<u8> {
+    let sigs: Vec<Signature> = l.iter().map(build).collect();
+    save_plain(&sigs).unwrap()
+}
+
+// ---- a small JSON writer with controllable layout for the `load`/`legacy` streams
+
+#[derive(Clone)]
+enum J {
+    Null,
+    Raw(String), // number or any literal text
+    Str(String),
+    Arr(Vec<J>),
+    Obj(Vec<(String, J)>),
+}
+
+fn jstr(r: &mut Rng, s: &str, fancy: bool) -> String {
+    let mut o = String::from("\"");
+    for c in s.chars() {
+        let esc = fancy && r.chance(1, 6);
+        match c {
+            '"' => o.push_str("\\\""),
+            '\\' => o.push_str("\\\\"),
+            '\n' => o.push_str("\\n"),
+            '\r' => o.push_str("\\r"),
+            '\t' => o.push_str("\\t"),
+            '/' if esc => o.push_str("\\/"),
+            c if (c as u32) < 0x20 => o.push_str(&format!("\\u{:04x}", c as u32)),
+            c if esc => {
+                let mut b = [0u16; 2];
+                for u in c.encode_utf16(&mut b) {
+                    o.push_str(&format!("\\u{:04X}", u));
+                }
+            }
+            c => o.push(c),
+        }
+    }
+    o.push('"');
+    o
+}
+fn jws(r: &mut Rng, fancy: bool) -> &'static str {
+    if fancy { *r.pick(&["", "", " ", "\n  ", "\t", "\r\n"]) } else { "" }
+}
+fn jprint(r: &mut Rng, j: &J, fancy: bool, o: &mut String) {
+    match j {
+        J::Null => o.push_str("null"),
+        J::Raw(s) => o.push_str(s),
+        J::Str(s) => o.push_str(&jstr(r, s, fancy)),
+        J::Arr(v) => {
+            o.push('[');
+            for (i, x) in v.iter().enumerate() {
+                if i > 0 {
+                    o.push(',');
+                }
+                o.push_str(jws(r, fancy));
+                jprint(r, x, fancy, o);
+            }
+            o.push_str(jws(r, fancy));
+            o.push(']');
+        }
+        J::Obj(v) => {
+            o.push('{');
+            for (i, (k, x)) in v.iter().enumerate() {
+                if i > 0 {
+                    o.push(',');
+                }
+                o.push_str(jws(r, fancy));
+                o.push_str(&jstr(r, k, false));
+                o.push_str(jws(r, fancy));
+                o.push(':');
+                o.push_str(jws(r, fancy));
+                jprint(r, x, fancy, o);
+            }
+            o.push_str(jws(r, fancy));
+            o.push('}');
+        }
+    }
+}
+fn nums(v: &[u64]) -> J {
+    J::Arr(v.iter().map(|x| J::Raw(x.to_string())).collect())
+}
+fn shuffle<T>(r: &mut Rng, v: &mut [T]) {
+    for i in (1..v.len()).rev() {
+        let j = r.below(i as u64 + 1) as usize;
+        v.swap(i, j);
+    }
+}
+
+/// a sketch object as an earlier release (or another tool) could have written it
+fn legacy_sketch(r: &mut Rng, bad: bool) -> J {
+    let m = rmh(r, 'v');
+    let mut pairs: Vec<(u64, u64)> =
+        m.mins.iter().copied().zip(m.abunds.clone().unwrap_or_else(|| vec![0; m.mins.len()])).collect();
+    if r.chance(3, 4) {
+        shuffle(r, &mut pairs);
+    }
+    let mol = match &m.mol {
+        Mol::Dna => *r.pick(&["DNA", "dna", "Dna", "dNA"]),
+        Mol::Protein => *r.pick(&["protein", "PROTEIN", "Protein"]),
+        Mol::Dayhoff => *r.pick(&["dayhoff", "DAYHOFF", "Dayhoff"]),
+        Mol::Hp => *r.pick(&["hp", "HP", "Hp", "hP"]),
+        _ => "dna",
+    };
+    let mut f: Vec<(String, J)> = vec![
+        ("num".into(), J::Raw(if m.max_hash != 0 && r.chance(1, 2) { r.range(0, 2000).to_string() } else { m.num.to_string() })),
+        ("ksize".into(), J::Raw(m.ksize.to_string())),
+        ("seed".into(), J::Raw(m.seed.to_string())),
+        ("max_hash".into(), J::Raw(m.max_hash.to_string())),
+        ("mins".into(), nums(&pairs.iter().map(|p| p.0).collect::<Vec<_>>())),
+        ("md5sum".into(), J::Str(m.md5.clone())),
+        ("molecule".into(), J::Str(mol.into())),
+    ];
+    if m.abunds.is_some() {
+        f.push(("abundances".into(), nums(&pairs.iter().map(|p| p.1).collect::<Vec<_>>())));
+    } else if r.chance(1, 4) {
+        f.push(("abundances".into(), J::Null));
+    }
+    if r.chance(1, 3) {
+        f.push(("type".into(), J::Str("mrnaseq".into())));
+    }
+    if r.chance(1, 6) {
+        f.push(("cardinality".into(), J::Obj(vec![("x".into(), J::Arr(vec![J::Null, J::Raw("true".into()), J::Raw("1.5".into())]))])));
+    }
+    if bad {
+        let i = r.below(f.len() as u64) as usize;
+        match r.below(12) {
+            0 => {
+                f.remove(i);
+            }
+            1 => f[0].1 = J::Raw("4294967296".into()),
+            2 => f[1].1 = J::Raw("-1".into()),
+            3 => f[2].1 = J::Raw("18446744073709551616".into()),
+            4 => f[3].1 = J::Raw("1.5".into()),
+            5 => f[4].1 = J::Arr(vec![J::Raw("1".into()), J::Str("2".into())]),
+            6 => f[5].1 = J::Raw("7".into()),
+            7 => f[6].1 = J::Str(r.pick(&["rna", "", "DN A", "dna ", "\u{212a}", "prot"]).to_string()),
+            8 => f[6].1 = J::Null,
+            9 => f[4].1 = J::Arr(vec![J::Raw("18446744073709551616".into())]),
+            10 => {
+                // misaligned abundances: the loader zips
+                let k = r.below(4);
+                f.push(("abundances".into(), nums(&(0..k).map(|x| x + 1).collect::<Vec<_>>())));
+                f.retain({
+                    let mut seen = false;
+                    move |x| {
+                        if x.0 == "abundances" {
+                            if seen {
+                                return true;
+                            }
+                            seen = true;
+                            return false;
+                        }
+                        true
+                    }
+                });
+                if !f.iter().any(|x| x.0 == "abundances") {
+                    f.push(("abundances".into(), nums(&[5])));
+                }
+            }
+            _ => {
+                // duplicate hashes
+                if let J::Arr(v) = &mut f[4].1 {
+                    if let Some(x) = v.first().cloned() {
+                        v.push(x);
+                    }
+                }
+                if let Some(p) = f.iter().position(|x| x.0 == "abundances") {
+                    if let J::Arr(v) = &mut f[p].1 {
+                        v.push(J::Raw("77".into()));
+                    }
+                }
+            }
+        }
+    }
+    if r.chance(2, 3) {
+        shuffle(r, &mut f);
+    }
+    J::Obj(f)
+}
+
+fn legacy_doc(r: &mut Rng, bad: bool) -> String {
+    let nsig = if r.chance(1, 10) { 0 } else { r.range(1, 3) };
+    let mut sigs = vec![];
+    let badsig = if bad { r.below(nsig.max(1)) } else { u64::MAX };
+    for si in 0..nsig {
+        let nsk = r.range(0, 4);
+        let badsk = if si == badsig && r.chance(2, 3) { r.below(nsk.max(1)) } else { u64::MAX };
+        let mut sk: Vec<J> = (0..nsk).map(|i| legacy_sketch(r, i == badsk)).collect();
+        if r.chance(1, 8) {
+            if let Sk::Hll { p, q, ksize, regs } = rhll(r) {
+                sk.push(J::Obj(vec![
+                    ("registers".into(), nums(&regs.iter().map(|x| *x as u64).collect::<Vec<_>>())),
+                    ("p".into(), J::Raw(p.to_string())),
+                    ("q".into(), J::Raw(q.to_string())),
+                    ("ksize".into(), J::Raw(ksize.to_string())),
+                ]));
+            }
+        }
+        let mut f: Vec<(String, J)> = vec![("hash_function".into(), J::Str("0.murmur64".into())), ("signatures".into(), J::Arr(sk))];
+        if r.chance(2, 3) {
+            f.push(("class".into(), J::Str("sourmash_signature".into())));
+        }
+        if r.chance(1, 2) {
+            f.push(("email".into(), J::Str(rstr(r))));
+        }
+        if r.chance(2, 3) {
+            f.push(("filename".into(), if r.chance(1, 3) { J::Null } else { J::Str(rstr(r)) }));
+        }
+        if r.chance(2, 3) {
+            f.push(("name".into(), if r.chance(1, 5) { J::Null } else { J::Str(rstr(r)) }));
+        }
+        if r.chance(2, 3) {
+            f.push(("license".into(), J::Str("CC0".into())));
+        }
+        if r.chance(2, 3) {
+            f.push(("version".into(), J::Raw(r.pick(&["0.4", "0.4", "0.3", "1", "2", "0.25", "4e-1", "40E-2", "1e2"]).to_string())));
+        }
+        if r.chance(1, 4) {
+            f.push(("type".into(), J::Str("mrnaseq".into())));
+        }
+        if si == badsig && badsk == u64::MAX {
+            match r.below(8) {
+                0 => f.retain(|x| x.0 != "hash_function"),
+                1 => f.retain(|x| x.0 != "signatures"),
+                2 => f[0].1 = J::Null,
+                3 => f[1].1 = J::Obj(vec![]),
+                4 => f.push(("email".into(), J::Null)),
+                5 => f.push(("version".into(), J::Str("0.4".into()))),
+                6 => {
+                    if let J::Arr(v) = &mut f[1].1 {
+                        v.push(J::Obj(vec![("ksize".into(), J::Raw("21".into()))]));
+                    }
+                }
+                _ => f.push(("license".into(), J::Raw("4".into()))),
+            }
+            // the pushes above may have produced a duplicate key: keep the last (Lean.Json would) — the
+            // duplicate-field error of serde is not reachable through a text the model side can parse
+            let mut seen = BTreeSet::new();
+            let mut g = vec![];
+            for x in f.into_iter().rev() {
+                if seen.insert(x.0.clone()) {
+                    g.push(x);
+                }
+            }
+            g.reverse();
+            f = g;
+        }
+        if r.chance(2, 3) {
+            shuffle(r, &mut f);
+        }
+        sigs.push(J::Obj(f));
+    }
+    let top = if bad && r.chance(1, 10) { sigs.into_iter().next().unwrap_or(J::Null) } else { J::Arr(sigs) };
+    let mut o = String::new();
+    let fancy = r.chance(1, 2);
+    jprint(r, &top, fancy, &mut o);
+    if fancy {
+        o.push('\n');
+    }
+    o
+}
+
+fn data_files() -> Vec<(u64, String)> {
+    fn walk(dir: &std::path::Path, out: &mut Vec<(u64, String)>) {
+        let mut es: Vec<_> = std::fs::read_dir(dir).unwrap().map(|e| e.unwrap().path()).collect();
+        es.sort();
+        for p in es {
+            if p.is_dir() {
+                walk(&p, out);
+            } else {
+                let n = p.to_string_lossy().to_string();
+                if n.ends_with(".sig") || n.ends_with(".sig.gz") {
+                    let rel = n[DATA.len() + 1..].to_string();
+                    if !rel.contains(char::is_whitespace) {
+                        out.push((std::fs::metadata(&p).unwrap().len(), rel));
+                    }
+                }
+            }
+        }
+    }
+    let mut v = vec![];
+    walk(std::path::Path::new(DATA), &mut v);
+    v.sort();
+    v
+}
+
+fn gen(a: &Args) {
+    let mut r = Rng::new(a.seed);
+    let mut o = Out::new();
+    let thorough = a.tier == "thorough";
+    let mult = if thorough { 12 } else { 1 };
+
+    // stream 1: save / roundtrip / gz of one signature (0-5 sketches, both containers, HLL)
+    for i in 0..900 * mult {
+        o.case("one");
+        let l = vec![rsig(&mut r, true)];
+        let s = fmt_list(&l);
+        o.op(&format!("save {} {}", s, hex(&real_json(&l))));
+        o.op(&format!("roundtrip {}", s));
+        o.op(&format!("rtypes {}", s));
+        if i % 3 == 0 {
+            o.op(&format!("gz {} {}", r.range(0, 9), s));
+        }
+    }
+    // stream 2: lists of signatures through the exported list writer, every level
+    for i in 0..120 * mult {
+        o.case("list");
+        let n = if i % 20 == 0 { 0 } else { r.range(1, 4) };
+        let l: Vec<Sg> = (0..n).map(|_| rsig(&mut r, true)).collect();
+        let s = fmt_list(&l);
+        o.op(&format!("save {} {}", s, hex(&real_json(&l))));
+        o.op(&format!("roundtrip {}", s));
+        let all = i % 12 == 0;
+        for level in 0..10u64 {
+            if all || r.chance(1, 5) {
+                o.op(&format!("gz {} {}", level, s));
+            }
+        }
+    }
+    // stream 3: filters
+    for _ in 0..500 * mult {
+        o.case("filter");
+        let n = r.range(1, 3);
+        let mut l: Vec<Sg> = (0..n).map(|_| rsig(&mut r, false)).collect();
+        // few distinct ksizes so that filters hit
+        let ks = [21u32, 31, 51];
+        for s in l.iter_mut() {
+            for k in s.sketches.iter_mut() {
+                if let Sk::Mh(m) = k {
+                    if r.chance(5, 6) {
+                        m.ksize = *r.pick(&ks);
+                        if !m.cached || r.chance(1, 2) {
+                            m.md5 = real_md5(m);
+                        }
+                    }
+                }
+            }
+        }
+        let s = fmt_list(&l);
+        for _ in 0..3 {
+            let k = if r.chance(1, 4) { 0 } else { *r.pick(&[21u64, 31, 51, 22, 7]) };
+            let m = *r.pick(&["any", "dna", "DNA", "protein", "dayhoff", "hp", "Protein"]);
+            o.op(&format!("filter {} {} {}", k, m, s));
+        }
+    }
+    // stream 4: legacy / foreign / malformed texts
+    for i in 0..700 * mult {
+        o.case("text");
+        let bad = i % 3 == 2;
+        let t = legacy_doc(&mut r, bad);
+        o.op(&format!("load {}", hex(t.as_bytes())));
+        o.op(&format!("legacy {}", hex(t.as_bytes())));
+    }
+    for _ in 0..200 * mult {
+        o.case("sketchtext");
+        let mut t = String::new();
+        let bad = r.chance(1, 4);
+        let j = legacy_sketch(&mut r, bad);
+        jprint(&mut r, &j, false, &mut t);
+        o.op(&format!("loadvec {}", hex(t.as_bytes())));
+        o.op(&format!("loadtree {}", hex(t.as_bytes())));
+    }
+    // stream 5: the bundled signature files
+    let files = data_files();
+    let limit = if thorough { u64::MAX } else { 30_000 };
+    let mut n = 0;
+    for (sz, rel) in files.iter() {
+        if *sz > limit || (!thorough && n >= 44) {
+            continue;
+        }
+        let (_, plain) = read_data(rel);
+        if plain.len() as u64 > 8 * limit.min(1 << 40) {
+            continue;
+        }
+        n += 1;
+        o.case("file");
+        o.op(&format!("file {} {}", rel, hex(&plain)));
+        o.op(&format!("filefmt {} {}", rel, hex(&plain)));
+    }
+}
+
+/// `dump`: what serde actually emits for a sample signature — consumed by translator/c06.py
+fn dump() {
+    let mut r = Rng::new(7);
+    let mut v = rmh(&mut r, 'v');
+    v.abunds = Some(v.mins.iter().map(|_| 3).collect());
+    let mut t = v.clone();
+    t.kind = 't';
+    let mut plain = v.clone();
+    plain.abunds = None;
+    let h = rhll(&mut r);
+    let sg = Sg {
+        class: "sourmash_signature".into(),
+        email: "".into(),
+        hash_function: "0.murmur64".into(),
+        filename: None,
+        name: Some("n".into()),
+        license: "CC0".into(),
+        version: 0.4f64.to_bits(),
+        sketches: vec![Sk::Mh(v), Sk::Mh(t), Sk::Mh(plain), h],
+    };
+    let mut noname = sg.clone();
+    noname.name = None;
+    noname.sketches.clear();
+    let keys = |j: &serde_json::Value| -> String { j.as_object().unwrap().keys().cloned().collect::<Vec<_>>().join(" ") };
+    // serde_json::Value is built without `preserve_order`, so read the key order off the text instead
+    fn text_keys(t: &str) -> String {
+        // top-level keys of one JSON object text, in textual order
+        let b: Vec<char> = t.chars().collect();
+        let (mut depth, mut i, mut out, mut expect_key) = (0i32, 0usize, vec![], false);
+        while i < b.len() {
+            match b[i] {
+                '{' | '[' => {
+                    depth += 1;
+                    expect_key = b[i] == '{' && depth == 1;
+                }
+                '}' | ']' => depth -= 1,
+                ',' if depth == 1 => expect_key = true,
+                '"' => {
+                    let mut j = i + 1;
+                    let mut s = String::new();
+                    while b[j] != '"' {
+                        if b[j] == '\\' {
+                            j += 1;
+                        }
+                        s.push(b[j]);
+                        j += 1;
+                    }
+                    if depth == 1 && expect_key {
+                        out.push(s);
+                        expect_key = false;
+                    }
+                    i = j;
+                }
+                _ => {}
+            }
+            i += 1;
+        }
+        out.join(" ")
+    }
+    let _ = keys;
+    let sig = build(&sg);
+    let mut b = vec![];
+    sig.to_writer(&mut b).unwrap();
+    let val: serde_json::Value = serde_json::from_slice(&b).unwrap();
+    let one = serde_json::to_string(&sig).unwrap();
+    println!("signature {}", text_keys(&one));
+    println!("signature_noname {}", text_keys(&serde_json::to_string(&build(&noname)).unwrap()));
+    let names = ["kmh_abund", "btree_abund", "kmh", "hll"];
+    for (n, sk) in names.iter().zip(sig.iter()) {
+        println!("{} {}", n, text_keys(&serde_json::to_string(sk).unwrap()));
+    }
+    println!("top_is_array {}", val.is_array());
+    for hf in [HashFunctions::Murmur64Dna, HashFunctions::Murmur64Protein, HashFunctions::Murmur64Dayhoff, HashFunctions::Murmur64Hp] {
+        println!("molecule {:?} {}", hf, hf);
+    }
+    let d = Signature::default();
+    println!("default class {}", hs(&d.class()));
+    println!("default license {}", hs(&d.license()));
+    println!("default email {}", hs(&d.email()));
+    println!("default version {:016x}", observe(&d).version);
 }
 
 fn main() {
@@ -18,6 +1314,7 @@ fn main() {
     match a.mode.as_str() {
         "gen" => gen(&a),
         "exec" => exec_loop(|| (), step),
+        "dump" => dump(),
         _ => panic!("mode"),
     }
 }
